@@ -381,3 +381,27 @@ PROPS["C09"] = {
     "min_nontrivial": {"quick": 2000, "thorough": 30000},
     "min_labels": {"colliding-tuples": 500},
 }
+
+PROPS["C10"] = {
+    "level": "exploration",
+    "design_ref": "DESIGN.md §4.10",
+    "technique": "per-function argument pools enumerated exhaustively + rapid samples; independent re-implementation of each function from its README one-liner; constant and row-dependent forms x row/batch x select-field and WHERE positions; round-trip laws",
+    "level_text": "Bounded-exhaustive exploration per function: upper/lower/strlen/str/int/float/is_int/is_float/substr over a pool of ASCII texts, integers to 10^6 of "
+                  "both signs and exactly representable floats; split/join inverse laws over 8 part lists x 5 separators (split(join(sep,p..),sep)[i]=p_i, len=n, "
+                  "join(sep, split(s,sep)[0..]) = s); list/int_list/ilist/float_list/flist and list of texts hold their arguments in order ([i] and len); "
+                  "l2_distance/cosine_distance against their formulas (relative tolerance 1e-12) and an error value for vectors of different lengths; "
+                  "[n] over every list producer and JSON arrays; json(text)[k1][k2].. navigation compared structurally. Every call is issued with constant "
+                  "arguments (exercising the fold path at plan time) and with row-dependent arguments (argument stored in the pair and read back through "
+                  "value / key / int(value) / split(value, ',') / json(value)[..]), in row and in batch mode, as a select field and - for comparable results - "
+                  "inside WHERE compared with the literal of the documented value. rapid adds random texts, numbers, part lists, vectors and documents.",
+    "level_note": "Trusted: lib/refeval.go re-implementations. substr follows the README wording [start, end) with 0 <= start <= end. int()/float() of "
+                  "non-numeric text, float-to-text rendering, overflow, out-of-range [n], missing JSON members and case mapping of non-ASCII text are outside the domain.",
+    "rule": "enumerated (function, argument tuple, form) cases (each once) + rapid samples. Non-trivial = the case is inside the documented domain "
+            "(the reference defines a value or a documented refusal); distinct = distinct (statement, pair).",
+    "assumptions": COMMON_ASSUMPTIONS,
+    "legs": [
+        {"test": "TestC10Pools", "kind": "enum", "quick": {"shards": 2}, "thorough": {"shards": 2}},
+        {"test": "TestC10Sampled", "kind": "rapid", "quick": {"checks": 5000, "shards": 3}, "thorough": {"checks": 200000, "shards": 12}},
+    ],
+    "min_nontrivial": {"quick": 5000, "thorough": 100000},
+}
